@@ -444,6 +444,12 @@ def main():
                     undecided.append("bounded driver %s produced no result (%s)" % (b["driver"], rr.get("error")))
                     continue
                 cov["bounded"].append({"driver": b["driver"], "what": b.get("what", ""), "bound": b.get("bound", ""), "cases": j.get("cases"), "distinct_nontrivial": j.get("distinct_nontrivial"), "failures": len(j.get("failures", []))})
+                if evidence["level"] == "exploration":
+                    cov["evaluations"] = cov.get("evaluations", 0) + int(j.get("cases") or 0)
+                    cov["distinct_nontrivial"] = cov.get("distinct_nontrivial", 0) + int(j.get("distinct_nontrivial") or 0)
+                    cov["rule"] = cfg.get("rule", b.get("bound", ""))
+                    cov["exhaustive"] = True
+                    cov["samples"] += [{"driver": b["driver"], "case": x} for x in (j.get("samples") or [])[:5]]
                 if j.get("failures"):
                     violations.append({"obligation": "bounded::%s" % b["driver"], "kind": "bounded", "function": b["driver"], "label": None, "unit": "replay", "clause": b.get("what", ""),
                                        "message": "bounded check on the real code found a failing input", "rendered": json.dumps(j["failures"][:3])[:3000], "site_text": "",
